@@ -351,6 +351,7 @@ class DurableContext(DurableContextProtocol):
             ),
             config=config,
         )
+        self.state.track_replay(operation_id=operation_id)
         callback_id: str = executor.process()
         result: Callback = Callback(
             callback_id=callback_id,
@@ -358,7 +359,6 @@ class DurableContext(DurableContextProtocol):
             state=self.state,
             serdes=config.serdes,
         )
-        self.state.track_replay(operation_id=operation_id)
         return result
 
     def invoke(
@@ -393,8 +393,8 @@ class DurableContext(DurableContextProtocol):
             ),
             config=config,
         )
-        result: R = executor.process()
         self.state.track_replay(operation_id=operation_id)
+        result: R = executor.process()
         return result
 
     def map(
@@ -427,6 +427,7 @@ class DurableContext(DurableContextProtocol):
                 operation_identifier=operation_identifier,
             )
 
+        self.state.track_replay(operation_id=operation_id)
         result: BatchResult[R] = child_handler(
             func=map_in_child_context,
             state=self.state,
@@ -440,7 +441,6 @@ class DurableContext(DurableContextProtocol):
                 item_serdes=None,
             ),
         )
-        self.state.track_replay(operation_id=operation_id)
         return result
 
     def parallel(
@@ -470,6 +470,7 @@ class DurableContext(DurableContextProtocol):
                 operation_identifier=operation_identifier,
             )
 
+        self.state.track_replay(operation_id=operation_id)
         result: BatchResult[T] = child_handler(
             func=parallel_in_child_context,
             state=self.state,
@@ -483,7 +484,6 @@ class DurableContext(DurableContextProtocol):
                 item_serdes=None,
             ),
         )
-        self.state.track_replay(operation_id=operation_id)
         return result
 
     def run_in_child_context(
@@ -511,6 +511,7 @@ class DurableContext(DurableContextProtocol):
         def callable_with_child_context():
             return func(self.create_child_context(parent_id=operation_id))
 
+        self.state.track_replay(operation_id=operation_id)
         result: T = child_handler(
             func=callable_with_child_context,
             state=self.state,
@@ -519,7 +520,6 @@ class DurableContext(DurableContextProtocol):
             ),
             config=config,
         )
-        self.state.track_replay(operation_id=operation_id)
         return result
 
     def step(
@@ -544,8 +544,8 @@ class DurableContext(DurableContextProtocol):
             ),
             context_logger=self.logger,
         )
-        result: T = executor.process()
         self.state.track_replay(operation_id=operation_id)
+        result: T = executor.process()
         return result
 
     def wait(self, duration: Duration, name: str | None = None) -> None:
@@ -570,8 +570,8 @@ class DurableContext(DurableContextProtocol):
                 name=name,
             ),
         )
-        executor.process()
         self.state.track_replay(operation_id=operation_id)
+        executor.process()
 
     def wait_for_callback(
         self,
@@ -627,8 +627,8 @@ class DurableContext(DurableContextProtocol):
                 context_logger=self.logger,
             )
         )
-        result: T = executor.process()
         self.state.track_replay(operation_id=operation_id)
+        result: T = executor.process()
         return result
 
 
